@@ -138,44 +138,6 @@ func ruleC08Tab(e *Env) {
 	}
 }
 
-// ruleC13Tab: C13.tab (table part; the Shorten loop constants are checked by ruleC13Shorten).
-func ruleC13Tab(e *Env) (units []string) {
-	const rule = "C13.tab"
-	got, _ := sizeUnits(e, rule)
-	su := e.table(rule, "size", "shortenUnits")
-	if got == nil || su == nil {
-		return nil
-	}
-	pos := e.tpos("size", su)
-	want := []string{"B", "KiB", "MiB", "GiB", "TiB", "PiB"}
-	suVals, err := su.SliceValues()
-	if err != nil {
-		e.S.Unk(rule, "size.shortenUnits", "literal", err.Error(), pos)
-		return nil
-	}
-	if len(suVals) != len(want) {
-		e.S.Bad(rule, "size.shortenUnits", "length", fmt.Sprintf("%d units, expected the six binary units B..PiB (EiB is the post-loop unit)", len(suVals)), pos, "")
-	}
-	for i, v := range suVals {
-		if v == nil || v.Kind() != constant.String {
-			e.S.Unk(rule, "size.shortenUnits", fmt.Sprintf("[%d]", i), "non-constant entry", pos)
-			return nil
-		}
-		u := constant.StringVal(v)
-		units = append(units, u)
-		wantMul := new(big.Int).Lsh(big.NewInt(1), uint(10*i))
-		switch {
-		case i < len(want) && u != want[i]:
-			e.S.Bad(rule, "size.shortenUnits", fmt.Sprintf("[%d]", i), fmt.Sprintf("entry %d is %s, the unit for 1024^%d is %s", i, u, i, want[i]), pos, "")
-		case got[u] == nil || got[u].Cmp(wantMul) != 0:
-			e.S.Bad(rule, "size.shortenUnits", fmt.Sprintf("[%d]", i), fmt.Sprintf("entry %d (%s) has multiplier %v in unitToValues, Shorten divides by 1024 %d time(s) to get there (2^%d)", i, u, got[u], i, 10*i), pos, "")
-		default:
-			e.S.Ok(rule, "size.shortenUnits", fmt.Sprintf("[%d]", i), fmt.Sprintf("%s ↔ 2^%d in unitToValues", u, 10*i), pos)
-		}
-	}
-	return units
-}
-
 // ruleC02Tab: C02.tab — the three digit tables hold the canonical subtractive numerals.
 func ruleC02Tab(e *Env) {
 	const rule = "C02.tab"
